@@ -40,7 +40,11 @@ pub fn shaped_patterns(rng: &mut Rng, which: usize) -> Vec<Vec<u8>> {
             // switch at 127/128, the kind tags 254/255 and the full 256.
             const FANOUT: [usize; 22] =
                 [1, 2, 3, 4, 5, 6, 7, 8, 9, 125, 126, 127, 128, 129, 130, 131, 252, 253, 254, 255, 256, 64];
-            let n = FANOUT[(which / 10 * 3 + which % 10) % FANOUT.len()];
+            // every second wide-node list takes its width from that table, the
+            // others any width 1..=256 (lookups inside a sparse state may treat
+            // widths differently anywhere in between)
+            let idx = which / 10 * 3 + which % 10;
+            let n = if idx % 2 == 0 { FANOUT[(idx / 2) % FANOUT.len()] } else { 1 + rng.below(256) };
             let plen = if rng.chance(1, 6) { 0 } else { rng.range(1, 3) };
             let prefix = gen::rand_string(rng, b"abAB\x00\xff", plen);
             let first = rng.below(256);
